@@ -995,6 +995,14 @@ impl<T: Transport, Env: UtpEnvironment> VirtualSocket<T, Env> {
         }
 
         if result.on_ack_result.acked_segments_count > 0 {
+            // The ACK may cover segments past a last_sent_seq_nr that was rewound on RTO. They were
+            // delivered, so count them as sent. Otherwise a pending FIN, which is only sent when it
+            // directly follows last_sent_seq_nr, would never go out.
+            let last_acked = self.user_tx_segments.snd_una() - 1;
+            if self.last_sent_seq_nr < last_acked {
+                self.last_sent_seq_nr = last_acked;
+            }
+
             // Cleanup user side of TX queue, remove the ACKed bytes from the front of it,
             // and notify the writer.
             {
